@@ -179,12 +179,16 @@ def run(ctx):
         for j in range(1, L):
             R = exps[-1][1]
             d = rng.choice('hHvV'); g = dy(rng, 0, 6, 2); w = dy(rng, 1, 10, 4); h = dy(rng, 1, 10, 4)
+            kind = rng.choice(['rect', 'rect', 'rect', 'rect', 'point', 'circle'])    # a point is not drawn but is a previous element like any other
+            if kind == 'point': w = h = 0
+            if kind == 'circle': h = w
             ref = '^' if rng.chance(0.5) else '#e%d' % (j - 1)
             cx = (R[0] + R[2]) / 2; cy = (R[1] + R[3]) / 2
             e = {'h': (R[2] + g, cy - h / 2, R[2] + g + w, cy + h / 2), 'H': (R[0] - g - w, cy - h / 2, R[0] - g, cy + h / 2),
                  'v': (cx - w / 2, R[3] + g, cx + w / 2, R[3] + g + h), 'V': (cx - w / 2, R[1] - g - h, cx + w / 2, R[1] - g)}[d]
-            els.append(xmlcanon.el('rect', [('id', 'e%d' % j), ('xy', '%s|%s %s' % (ref, d, fmt(g))), ('wh', '%s %s' % (fmt(w), fmt(h)))]))
-            exps.append(('rect', e))
+            size = [] if kind == 'point' else [('wh', fmt(w))] if kind == 'circle' else [('wh', '%s %s' % (fmt(w), fmt(h)))]
+            els.append(xmlcanon.el(kind, [('id', 'e%d' % j), ('xy', '%s|%s %s' % (ref, d, fmt(g)))] + size))
+            exps.append((kind, e))
         xml = '<svg>' + ''.join(els) + '</svg>'
         docs.append((doc_case('d%d' % di, xml, {'add_auto_styles': False}), exps, xml))
     dres = lib.run_impl([d[0] for d in docs])
@@ -196,6 +200,7 @@ def run(ctx):
             continue
         root, _, err = xmlcanon.parse(bytes.fromhex(r[1]))
         outs = [n for n in root.iter() if n.name in ('rect', 'circle', 'ellipse')] if root else []
+        exps = [x for x in exps if x[0] != 'point']
         if len(outs) != len(exps):
             yield {'kind': 'oracle', 'what': 'chain document: element count', 'case': c.to_json(), 'observed': len(outs), 'expected': len(exps)}
             continue
